@@ -14,7 +14,9 @@ CHECKS = {
         text=("Contracts on the real merge_small_dims (loop invariant at symbolic rank), BlockPartitioner.__init__ "
               "(rank 0..5, symbolic dims/block size/number of blocks), Preconditioner shape/slot bookkeeping, "
               "tearfree reshaper _derive_shapes and the merge/unmerge round trip, tearfree shampoo _blocks_metadata and the "
-              "_blockify/_deblockify round trip (every placement of <=2 large axes, rank<=5), all for symbolic dimensions: "
+              "_blockify/_deblockify round trip (every placement of <=2 large axes, rank<=5), all for symbolic dimensions; partition order = "
+              "itertools.product order = announced shapes and merge_partitions puts block k into box k (concrete block counts, symbolic dims); "
+              "identity preconditioners return the gradient unchanged entry by entry (rank 1..4, blocks, 3 preconditioner types, small concrete shapes): "
               "VCs generated from the AST of /repo on every run and discharged by z3/cvc5. Round trips are proved pointwise at a "
               "Skolem index. The partition/merge_partitions round trip for a symbolic number of blocks is not proved; the thorough "
               "tier runs a labelled bounded native enumeration for it."),
@@ -31,7 +33,8 @@ CHECKS = {
               "_pmap_compute_preconditioners that slot k holds gate(prev[k], Root(stat[k], exponent[k], size[k])) - an expression "
               "that does not mention D - for an enumerated (N,D) grid with symbolic matrices of per-statistic symbolic sizes, one or several "
               "statistics per parameter, plus the frame obligation that slot k reads statistic k and preconditioner k only (no arithmetic on "
-              "another replica's data, even with a zero coefficient). Not a multi-device execution."),
+              "another replica's data, even with a zero coefficient); the selection block of sharded_update_fn stores gate(old k, new k, error k) for "
+              "every real statistic for any (N, D), to_pad = 0 included. Not a multi-device execution."),
         design="7/C13",
         note=TB + " pmap collectives are axioms; the inverse-root routine enters as an uninterpreted function of "
         "(matrix named by its generic entry, exponent, padding).",
@@ -108,7 +111,8 @@ CHECKS = {
               "dimension and sketch size: the decomposed matrix is [P[r]*e[r] ; per-algorithm-scaled gradient in the LAST row], "
               "e'^2 = (s-rho)(s+rho) >= 0 with e'[-1] = 0, alpha' = alpha + f*rho^2 with f = 1 / 1/2 / 0 / 0; the update formula "
               "P'(inv_s o P g) + inv_alpha (g - P'P g) (Ada-FD: its own form) with safe inversion as a polynomial identity at size "
-              "(2,3) with symbolic entries. svd is an opaque sorted decomposition."),
+              "(2,3) with symbolic entries; generate_init_update binds the hyper-parameters it is given (two bindings in one process). "
+              "svd is an opaque sorted decomposition."),
         design="7/C16",
         note=TB + " Real arithmetic: rsqrt(0) and inf*0 are not modelled (a float-only difference would not be seen).",
         technique="contract-based deductive verification: transition contract of one update call, AST->VC, z3",
@@ -119,7 +123,7 @@ CHECKS = {
               "(tensor rank 1..3, every axis, k<d and k=d): escaped mass t' = b*t + s[k]^2; retained eigenvalues in "
               "{0,(s_i-c)(s_i+c)} and >= 0; dropped columns exactly zero; stored inverse roots (s_i^2 + b*t [+eps])^(-1/p) where "
               "kept / 0 where dropped, inv_tail, and the identity s_i^2 + b*t = l'_i + t' the code relies on; the decomposed "
-              "matrix is [sqrt(b) V diag(sqrt l) ; G]. SVD/QR outputs are opaque (s descending, >= 0). The OCO sketches are "
+              "matrix is [sqrt(b) V diag(sqrt l) ; G] where the rows of G are the mode-axis fibres of the gradient (any enumeration order). SVD/QR outputs are opaque (s descending, >= 0). The OCO sketches are "
               "covered by C16. The PSD bracket itself is the cited FD theorem, not proved."),
         design="7/C09",
         note=TB + " svd: singular values sorted and non-negative; qr(mode='r') opaque; real powers uninterpreted (rpow) with sign facts.",
@@ -133,8 +137,9 @@ CHECKS = {
               "Tearfree Shampoo / Sketchy / grafting / momentum) with every state leaf tagged as a caller-owned NumPy array: no "
               "augmented assignment reaches a leaf or a view of it, and no lax.cond / lax.while_loop body computes on a state leaf it merely "
               "captured (closure-capture rule: such a leaf is a compile-time constant after a restore), for the whole C07 option grid with "
-              "intervals > 1; module-level stateful objects (generators seeded at import ...) must not be used inside functions. The actual "
-              "serialization and remaining compile-level effects are reached only by the labelled bounded native resume harness (13 optimizer "
+              "intervals > 1; a float64 NumPy value (np.* applied to python scalars) must not be combined with a float32 state leaf (NumPy would "
+              "compute in float64 on a restored state); module-level stateful objects (generators seeded at import ...) must not be used inside functions. The actual "
+              "serialization and remaining compile-level effects are reached only by the labelled bounded native resume harness (15 optimizer "
               "modes x interruption points), which runs in both tiers and is not counted as proved."),
         design="7/C14",
         note=TB + " The frame checker is syntactic and conservative; NumPy aliasing semantics (in-place augmented assignment, "
@@ -189,7 +194,7 @@ CHECKS = {
               "column maximum - bit-precise for int8, and for int16 under the standard rounding model plus an exhaustive "
               "enumeration of all 2.1e9 float32 values on the real code in every run; monotonicity of IEEE division as a library "
               "axiom), zeros are reproduced exactly, the extracted diagonal is stored and returned bit-for-bit; the half-bucket "
-              "bound under the standard rounding model; idempotence of the integers in the thorough tier. Known finding: "
+              "bound under the standard rounding model, with and without extract_diagonal; idempotence of the integers in the thorough tier. Known finding: "
               "overflow to inf within one rounding of FLT_MAX."),
         design="7/C11",
         note=TB + " Float model as in C03; astype(int) of an integral in-range float is exact; IEEE division is monotone in |dividend|; "
@@ -201,7 +206,8 @@ CHECKS = {
               "option combinations (ema, Nesterov, weight decay on/off and before/after the momentum, momentum on/off, constant or "
               "scheduled lr, grafting NONE/SGD) with the second-order step as a contract: the update equals "
               "-lr(t) * momentum(weight decay(graft(unmerge(PG)))) pointwise (hence exactly linear in lr), the trace buffer update, each "
-              "transform receiving its own state slice, merge before and unmerge after the second-order step (a merged parameter). "
+              "transform receiving its own state slice, merge before and unmerge after the second-order step (a merged parameter); the graft stage "
+              "and its skip rules for symbolic shapes incl. unit dimensions; Tearfree Shampoo roots follow the preconditioner schedule. "
               "Tearfree Shampoo statistics C' = beta C + (1-beta) G G' and roots V diag(h^2) V', h = lambda^(-1/(2*2*rank)), per-block "
               "1e-6 cut-off, and Sketchy's (inv_tail (I-VV') + V diag(inv_eig) V') application along every axis, as polynomial "
               "identities at small sizes with symbolic entries. Block-wise contraction of axis a with root a: C08."),
